@@ -302,10 +302,15 @@ Definition fast_load (fn : fnet) (x : list F) (s : fstate) : fstate * res bool :
 
 Definition fast_outputs (fn : fnet) (s : fstate) : list F := map (sigF s) (seq (f_sensor fn) (f_out fn)).
 
-Definition flush_one (s : fstate) (i : nat) : fstate := set_bp (set_sig s i (fzero NF)) i (fzero NF).
+(* Flush: `for i := biasNeuronCount; i < totalNeuronCount; i++ { neuronSignals[i] = 0 }`, then
+   `for i := range neuronSignalsBeingProcessed { neuronSignalsBeingProcessed[i] = 0 }`: the scratch buffer holds no
+   constants and is cleared completely, the bias slots included (a module may have written one) *)
+Definition flush_sig_one (s : fstate) (i : nat) : fstate := set_sig s i (fzero NF).
+Definition flush_bp_one (s : fstate) (i : nat) : fstate := set_bp s i (fzero NF).
 
 Definition fast_flush (fn : fnet) (s : fstate) : fstate * res bool :=
-  (fold_left flush_one (seq (f_bias fn) (f_total fn - f_bias fn)) s, Ok true).
+  let s1 := fold_left flush_sig_one (seq (f_bias fn) (f_total fn - f_bias fn)) s in
+  (fold_left flush_bp_one (seq 0 (length (fs_bp s1))) s1, Ok true).
 
 Definition fast_step (fn : fnet) (s : fstate) (o : op F) : fstate * res bool :=
   match o with
@@ -369,7 +374,8 @@ Arguments rec_outputs {F}.
 Arguments fast_recursive {F}.
 Arguments fast_load {F}.
 Arguments fast_outputs {F}.
-Arguments flush_one {F}.
+Arguments flush_sig_one {F}.
+Arguments flush_bp_one {F}.
 Arguments fast_flush {F}.
 Arguments fast_step {F}.
 Arguments fast_run {F}.
